@@ -33,6 +33,7 @@ SPEC = dict(
         job('plan-err', 'h_server_write', 'plan-err', cases=-1, scale={Q: 4, T: 6}, procs=16, sources=SRC),
         job('rand', 'h_server_write', 'rand', cases={Q: 18000, T: 80000}, procs=16, sources=SRC),
         job('kernel', 'h_server_write', 'kernel', cases={Q: 2000, T: 12000}, procs=16, sources=SRC),
+        job('drain-exh', 'h_server_write', 'drain-exh', cases=-1, scale={Q: 4, T: 5}, procs=16, sources=SRC),
         job('accept-exh', 'h_server_write', 'accept-exh', cases=-1, scale={Q: 3, T: 5}, procs=16, sources=SRC),
         job('accept-rand', 'h_server_write', 'accept-rand', cases={Q: 4000, T: 30000}, procs=16, sources=SRC),
         job('accept-kernel', 'h_server_write', 'accept-kernel', cases={Q: 600, T: 4000}, procs=16, sources=SRC),
